@@ -5,7 +5,7 @@ import verif as V
 
 PROP = "C01"          # a sub-check of C01 (and of C04 for the peephole theorem); evidence in evidence/C01vm.json
 PROPS = "props/C01vm.v"
-DEPS = ["c01vm/Run.v"]
+DEPS = ["c01vm2/Run.v"]
 
 
 def classify(line):
@@ -49,18 +49,18 @@ def run(tier, seed):
         "theorems are about); the model checks on every sampled program that both coincide",
     ]
     proved = c.prove(PROPS)
-    exe_h, hlog = V.build_harness("c01vm")
+    exe_h, hlog = V.build_harness("c01vm2")
     mism, smism, st = [], [], {}
     exe_m = None
     if exe_h is None:
         c.broken_correspondence("harness-build", None, V.tail(hlog, 40))
     else:
-        exe_m, mlog = V.build_model("c01vm", "extract/ExtractC01vm.v", "c01vmmodel", deps=DEPS)
+        exe_m, mlog = V.build_model("c01vm2", "extract/ExtractC01vm2.v", "c01vm2model", deps=DEPS)
         if exe_m is None:
             c.broken_correspondence("model-extraction", None, V.tail(mlog, 40))
         else:
             n = 2000 if tier == "quick" else 120000
-            rc, out, cases, st = V.run_harness("c01vm", "c01vm", seed, n, tier)
+            rc, out, cases, st = V.run_harness("c01vm2", "c01vm", seed, n, tier)
             if rc != 0:
                 c.broken_correspondence("harness-run", None, V.tail(out, 40))
             else:
@@ -87,7 +87,7 @@ def run(tier, seed):
                         ords.append(k)
         if ords:
             c.notes.append("focused search on %d programs with a differing instruction list" % len(ords))
-            rc, out, cases2, st2 = V.run_harness("c01vm", "c01vm", seed, n, tier,
+            rc, out, cases2, st2 = V.run_harness("c01vm2", "c01vm", seed, n, tier,
                                                  extra=["wrap:%d" % o for o in ords[:400]], name="c01vmsearch")
             if rc == 0:
                 smism = V.compare_model(c, exe_m, cases2, "c01vmsearch", spec=True)
@@ -121,7 +121,7 @@ def replay(path):
     case = d.get("case")
     if not case:
         return 1
-    exe_m, mlog = V.build_model("c01vm", "extract/ExtractC01vm.v", "c01vmmodel", deps=DEPS)
+    exe_m, mlog = V.build_model("c01vm2", "extract/ExtractC01vm2.v", "c01vm2model", deps=DEPS)
     if exe_m is None:
         print(mlog)
         return 1
